@@ -48,6 +48,11 @@ def units(ctx):
         'bounded:c17-forests', 'c17_forest.py',
         'BOUNDED: 1500 random context forests x every variable / function '
         'name against the reference layer model'))
+    from contracts import colls3 as _c3
+    from vlib.pyvc.unit import contract_unit as _cu3
+    us += [_cu3(c, world_setup=_c3.setup)
+           for c in _c3.predicate_contracts() + _c3.wrapper_contracts()
+           if 'C04' in c.serves]
     return us
 
 
